@@ -437,6 +437,114 @@ theorem inv_ops {S : Bytes} (b : Reader) (ops : List ROp) (h : RInv S b) : RInv 
   | nil => exact h
   | cons op ops ih => exact ih _ (inv_apply b op h)
 
+/-! ### loop fuel is sufficient
+
+  `mu` bounds the number of further `fill()` calls that can make progress: every fill with room in the
+  buffer and no pending error strictly decreases it. -/
+
+def Reader.mu (b : Reader) : Nat := srcMeasure b.src + (if b.err = 0 then 1 else 0)
+
+theorem mu_le_fuel (b : Reader) : b.mu + 1 ≤ b.fuel := by
+  unfold Reader.mu Reader.fuel; split <;> omega
+
+theorem fill_mu (b : Reader) (he : b.err = 0) (hroom : b.cur.length < b.cap) : b.fill.mu < b.mu := by
+  unfold Reader.mu Reader.fill srcRead
+  cases hs : b.src with
+  | nil => simp [he, srcMeasure]
+  | cons hd rest =>
+    obtain ⟨d0, e0⟩ := hd
+    simp only
+    by_cases hfit : d0.length ≤ b.cap - b.cur.length
+    · simp only [hfit, if_true, he, srcMeasure]
+      split <;> (first | omega | (split <;> omega))
+    · simp only [hfit, if_false, he, srcMeasure, List.length_drop]
+      simp; omega
+
+theorem fill_cap' (b : Reader) : b.fill.cap = b.cap := rfl
+
+theorem peekLoop_stable (f : Nat) (b : Reader) (n : Nat) (hn : n ≤ b.cap) (hf : b.mu ≤ f) :
+    Reader.peekLoop (f + 1) b n = Reader.peekLoop f b n := by
+  induction f generalizing b with
+  | zero =>
+    have he : b.err ≠ 0 := by unfold Reader.mu at hf; intro h; simp [h] at hf
+    simp [Reader.peekLoop, he]
+  | succ f ih =>
+    rw [Reader.peekLoop]
+    conv => rhs; rw [Reader.peekLoop]
+    by_cases hc : b.cur.length < n ∧ b.err = 0
+    · rw [if_pos hc, if_pos hc]
+      have := fill_mu b hc.2 (by omega)
+      exact ih b.fill (by rw [fill_cap']; exact hn) (by omega)
+    · rw [if_neg hc, if_neg hc]
+
+/-- with the fuel the model supplies, the Peek loop really runs until its own exit condition -/
+theorem peekLoop_exit (f : Nat) (b : Reader) (n : Nat) (hn : n ≤ b.cap) (hf : b.mu ≤ f) :
+    ¬ ((Reader.peekLoop f b n).cur.length < n ∧ (Reader.peekLoop f b n).err = 0) := by
+  induction f generalizing b with
+  | zero =>
+    have he : b.err ≠ 0 := by unfold Reader.mu at hf; intro h; simp [h] at hf
+    simp [Reader.peekLoop, he]
+  | succ f ih =>
+    rw [Reader.peekLoop]
+    by_cases hc : b.cur.length < n ∧ b.err = 0
+    · rw [if_pos hc]
+      have := fill_mu b hc.2 (by omega)
+      exact ih b.fill (by rw [fill_cap']; exact hn) (by omega)
+    · rw [if_neg hc]; exact hc
+
+theorem readByteLoop_stable (f : Nat) (b : Reader) (hcap : 0 < b.cap) (hf : b.mu + 1 ≤ f) :
+    Reader.readByteLoop (f + 1) b = Reader.readByteLoop f b := by
+  induction f generalizing b with
+  | zero => omega
+  | succ f ih =>
+    rw [Reader.readByteLoop]
+    conv => rhs; rw [Reader.readByteLoop]
+    cases hcur : b.cur with
+    | cons c t => rfl
+    | nil =>
+      by_cases he : b.err ≠ 0
+      · simp only [if_pos he]
+      · simp only [if_neg he]
+        have he0 : b.err = 0 := by omega
+        have := fill_mu b he0 (by rw [hcur]; exact hcap)
+        exact ih b.fill (by rw [fill_cap']; exact hcap) (by omega)
+
+theorem readSliceLoop_stable (f : Nat) (b : Reader) (d : UInt8) (hf : b.mu + 1 ≤ f) :
+    Reader.readSliceLoop (f + 1) b d = Reader.readSliceLoop f b d := by
+  induction f generalizing b with
+  | zero => omega
+  | succ f ih =>
+    rw [Reader.readSliceLoop]
+    conv => rhs; rw [Reader.readSliceLoop]
+    by_cases he : b.err ≠ 0
+    · rw [if_pos he, if_pos he]
+    · rw [if_neg he, if_neg he]
+      have he0 : b.err = 0 := by omega
+      simp only
+      cases hi : indexOf d (List.drop b.cur.length b.fill.cur) with
+      | some i => rfl
+      | none =>
+        simp only
+        by_cases hfull : b.fill.cur.length ≥ b.fill.cap
+        · rw [if_pos hfull, if_pos hfull]
+        · rw [if_neg hfull, if_neg hfull]
+          have hgrow : b.cur.length ≤ b.fill.cur.length := by unfold Reader.fill; simp
+          have hroom : b.cur.length < b.cap := by rw [fill_cap'] at hfull; omega
+          have := fill_mu b he0 hroom
+          exact ih b.fill (by omega)
+
+/-- one-step stability lifts to every larger fuel -/
+theorem stable_of_step {α : Type} (L : Nat → α) (f0 : Nat) (h : ∀ f, f0 ≤ f → L (f + 1) = L f) :
+    ∀ f, f0 ≤ f → L f = L f0 := by
+  intro f hf
+  induction f with
+  | zero => have : f0 = 0 := by omega
+            subst this; rfl
+  | succ f ih =>
+    by_cases h0 : f0 = f + 1
+    · subst h0; rfl
+    · rw [h f (by omega)]; exact ih (by omega)
+
 /-! ### Writer -/
 
 structure WInv (b : Writer) : Prop where
@@ -548,9 +656,9 @@ theorem winv_write (direct : Bool) (b : Writer) (p : Bytes) (h : WInv b) :
     WInv (Writer.write direct b p).1 ∧
       (Writer.write direct b p).1.accepted = b.accepted ++ p.take (Writer.write direct b p).2.1 := by
   obtain ⟨hs, hc⟩ := h
-  have hl := writeLoop_spec direct (b.ws.length + 3) b p 0 hs
+  have hl := writeLoop_spec direct (b.ws.length + p.length + 3) b p 0 hs
   unfold Writer.write
-  generalize Writer.writeLoop direct (b.ws.length + 3) b p 0 = r at hl
+  generalize Writer.writeLoop direct (b.ws.length + p.length + 3) b p 0 = r at hl
   obtain ⟨b1, nn, p1⟩ := r
   unfold LoopPost at hl
   simp only at hl ⊢
